@@ -839,13 +839,85 @@ def run_library_calls(chk, tier):
                 m._in_eu_count, m._in_energy_units_context = 0, False
 
 
+def run_input_types(chk, tier):
+    """(E) legal input of unusual type: integer lists / integer arrays / arrays shared between objects, supplied in internal units
+    (the default) or inside a units context, followed by element-wise setters under other units: what is read back is the exact
+    conversion, objects do not share storage with each other or with the caller's array."""
+    import numpy as np
+    import quantarhei as qr
+    from quantarhei.core.units import conversion_facs_energy as F
+    r = cm.rng(PID + "types")
+    units = ["1/cm", "eV", "THz", "meV"]
+    for k in range(12 if tier == "quick" else 120):
+        u = r.choice(units)
+        v = r.choice([x for x in units if x != u])
+        E = float(r.choice([12000, 9500, 15000])) if u == "1/cm" else float(r.randint(1, 9))
+        kind = ["int_list", "int_array", "shared_array", "int_coupling"][k % 4]
+        c = {"kind": "types:" + kind, "set_in": u, "read_in": v, "value": E, "k": k}
+        try:
+            qr.Manager().set_current_units("energy", "int")
+            if kind in ("int_list", "int_array"):
+                ini = [0, 2] if kind == "int_list" else np.array([0, 2])
+                where = r.choice([None, None, u])
+                if where:
+                    with qr.energy_units(where):
+                        mol = qr.Molecule([0, 10000] if kind == "int_list" else np.array([0, 10000]))
+                else:
+                    mol = qr.Molecule(ini)
+                with qr.energy_units(u):
+                    mol.set_energy(1, E)
+                    back_u = mol.get_energy(1)
+                with qr.energy_units(v):
+                    back_v = mol.get_energy(1)
+                chk.case(("types", k, kind, u, v, where), True)
+                chk.count("types:" + kind)
+                if abs(back_u - E) > 1e-12 * abs(E):
+                    chk.violation("types:setter_truncates:" + kind, "Molecule created from %s (%s): energy supplied as %r %s reads back as %r %s"
+                                  % (kind.replace("_", " "), "internal units" if not where else where, E, u, back_u, u), "monitor", c)
+                want = E * F[u] / F[v]
+                if abs(back_v - want) > 1e-12 * abs(want):
+                    chk.violation("types:conversion:" + kind, "Molecule created from %s: energy supplied as %r %s reads as %r %s, exact conversion %r"
+                                  % (kind.replace("_", " "), E, u, back_v, v, want), "monitor", c)
+            elif kind == "shared_array":
+                arr = np.array([0.0, 2.0])
+                keep = arr.copy()
+                m1, m2 = qr.Molecule(arr), qr.Molecule(arr)
+                before2 = m2.get_energy(1)
+                with qr.energy_units(u):
+                    m1.set_energy(1, E)
+                chk.case(("types", k, kind, u), True)
+                chk.count("types:" + kind)
+                if m2.get_energy(1) != before2:
+                    chk.violation("types:shared_storage", "two molecules created from one array share storage: setting the energy of one in %s "
+                                  "changed the other from %r to %r" % (u, before2, m2.get_energy(1)), "monitor", c)
+                if not np.array_equal(arr, keep):
+                    chk.violation("types:caller_array_changed", "setting a molecule's energy in %s changed the caller's array %r -> %r"
+                                  % (u, keep.tolist(), arr.tolist()), "monitor", c)
+            else:
+                with qr.energy_units("1/cm"):
+                    mols = [qr.Molecule([0.0, 12000.0 + 100 * i]) for i in range(2)]
+                agg = qr.Aggregate(mols)
+                agg.set_resonance_coupling_matrix([[0, 0], [0, 0]])
+                with qr.energy_units(u):
+                    agg.set_resonance_coupling(0, 1, E / 100.0)
+                    back = agg.get_resonance_coupling(0, 1)
+                chk.case(("types", k, kind, u), True)
+                chk.count("types:" + kind)
+                if abs(back - E / 100.0) > 1e-12 * abs(E / 100.0):
+                    chk.violation("types:setter_truncates:coupling", "coupling matrix supplied as integers: coupling set to %r %s reads back as %r %s"
+                                  % (E / 100.0, u, back, u), "monitor", c)
+        except Exception as e:
+            chk.violation("types:exception:" + kind, "input-type case raised %r" % (e,), "monitor", c)
+    qr.Manager().set_current_units("energy", "int")
+
+
 def main():
     chk = cm.Check(PID, args.tier)
     chk.rule = ("(A) registry of units-managed accessors x all 121 ordered pairs of energy units x values; (B) random programs of nested "
                 "energy/frequency/length contexts, exceptions, handlers, real Aggregate.build calls (succeeding and failing); (C) public "
                 "library calls inside contexts; (D) 69 calls on objects x contexts x inputs created outside / inside the context, stored state "
                 "compared with the call made without a context. Non-trivial: u != v; programs with >= 2 contexts; every library call; every "
-                "transparency case that returns")
+                "transparency case that returns; (E) integer / shared-array inputs followed by element-wise setters under other units")
     chk.assumptions = ["the conversion factors are read from quantarhei.core.units and handed to the model as exact rationals",
                        "re-entering one context OBJECT while it is active is outside the model (each `with` of the modelled programs creates a new object); objects kept and entered again LATER are covered by a monitor",
                        "length-unit conversions of positions are not in the accessor registry (only context handling and the static tie of the converters)",
@@ -859,7 +931,8 @@ def main():
     import fcntl
     import translate
     cm.ensure_makefile()
-    with open(os.path.join(cm.WORK, ".coqlock"), "w") as lock:       # the committed library of the generated file (no-op when current)
+    os.makedirs(os.path.join(cm.VERIF, ".work"), exist_ok=True)
+    with open(os.path.join(cm.VERIF, ".work", ".coqlock"), "w") as lock:       # the committed library of the generated file (no-op when current)
         fcntl.flock(lock, fcntl.LOCK_EX)
         cm._run(["timeout", "600", "make", "theories/Proofs/C05gen.vo"], cwd=cm.COQDIR, timeout=650, env=cm.coq_env())
         fcntl.flock(lock, fcntl.LOCK_UN)
@@ -872,6 +945,7 @@ def main():
     run_reuse(chk, args.tier)
     run_library_calls(chk, args.tier)
     run_transparency(chk, args.tier)
+    run_input_types(chk, args.tier)
     chk.finish()
 
 
